@@ -374,8 +374,20 @@ def check_builder(model, rep):
     # array_* helpers go through exec
     for name in ('array_copy', 'array_iadd', 'array_imul', 'array_add_at', 'array_fill_zeros'):
         f = b.members[name].func
-        calls = [c for c in calls_in(f.node) if src(c.func) == 'self.exec']
-        ok = len(calls) == 1 and len(f.body) - (1 if isinstance(f.body[0], ast.Expr) and isinstance(f.body[0].value, ast.Constant) else 0) == 1
+
+        def via_exec(fn, depth=0):
+            # the body is one statement: a call of self.exec, or of a method of the same class that is such a wrapper of self.exec itself
+            body = [s_ for s_ in fn.body if not (isinstance(s_, ast.Expr) and isinstance(s_.value, ast.Constant))]
+            if len(body) != 1 or not isinstance(body[0], (ast.Expr, ast.Return)) or not isinstance(body[0].value, ast.Call):
+                return False
+            callee = body[0].value.func
+            if src(callee) == 'self.exec':
+                return len([c for c in calls_in(fn.node) if src(c.func) == 'self.exec']) == 1
+            if depth < 2 and isinstance(callee, ast.Attribute) and src(callee.value) == 'self' and callee.attr in b.members and b.members[callee.attr].func is not None \
+                    and callee.attr not in ('array_copy', 'array_iadd', 'array_imul', 'array_add_at', 'array_fill_zeros'):
+                return via_exec(b.members[callee.attr].func, depth + 1)
+            return False
+        ok = via_exec(f)
         rep.ob('R16.3', f.key, f.where(), ok, f'{name} emits one statement through exec (hence through _block_for)' if ok else f'{name} no longer emits through self.exec', statement=f'{name}-via-exec')
     # who may construct statements elsewhere
     ev = model.module('evaluable')
